@@ -15,6 +15,7 @@ LEAN_MODULE = 'Proofs.C15'
 THEOREMS = ['Fsic.C15.' + n for n in [
     'template_skeletons_equal', 'template_statements_equal', 'templates_parsed', 'expressions_selected',
     'selected_in_symbol_order', 'converter_called_once_each', 'no_equation_no_code', 'no_equation_pass',
+    'statement_defines_one', 'every_statement_contributes', 'body_equation_count',
     'indent_only_prefixes', 'converter_verbatim', 'lists_ignore_equations', 'empty_lists', 'empty_model_solves']]
 RULE = ('grammar programs (gen_scripts.gen_program with verbatim fragments and named periods) extended with fenced '
         'verbatim blocks (incl. blank lines and nested indentation), plus the empty script, verbatim-only scripts and '
@@ -30,7 +31,7 @@ ASSUMPTIONS = ['"a namespace that provides BaseModel" is read as BaseModel plus 
                'symbols come from parse_model (lags/leads are ints for indexed symbols)']
 
 META = {
-    "text": "Theorems: the reflected, annotation- and docstring-stripped AST skeletons of MODEL_TEMPLATE_TYPED and MODEL_TEMPLATE_UNTYPED are equal (re-proved against /repo on every run); the _evaluate body is the converter applied to exactly the symbols of type ENDOGENOUS/VERBATIM that carry both equation and code, once each, in symbol order; the converter's text is inserted verbatim (textwrap.indent only prefixes non-blank lines, proved by erasing the prefixes); no code-carrying symbol => `pass`; class lists do not depend on equation/code; an empty symbol list gives empty lists and LAGS=LEADS=0; with no check variables solveT converges at k = max 1 min_iter for every max_iter >= k (corollary of C02.solveT_converges). The model is tied to build_model_definition by exact comparison of the body text and class attributes; the three build routes x two templates are executed and compared on the real code.",
+    "text": "Theorems: the reflected, annotation- and docstring-stripped AST skeletons of MODEL_TEMPLATE_TYPED and MODEL_TEMPLATE_UNTYPED are equal (re-proved against /repo on every run); the _evaluate body is the converter applied to exactly the symbols of type ENDOGENOUS/VERBATIM that carry both equation and code, once each, in symbol order; every accepted equation statement yields exactly one endogenous symbol carrying that statement's equation and code, every statement of an accepted script is carried by a selected symbol, and the number of code blocks = distinct assigned names + verbatim statements (no statement silently discarded, fix d65c5fa); the converter's text is inserted verbatim (textwrap.indent only prefixes non-blank lines, proved by erasing the prefixes); no code-carrying symbol => `pass`; class lists do not depend on equation/code; an empty symbol list gives empty lists and LAGS=LEADS=0; with no check variables solveT converges at k = max 1 min_iter for every max_iter >= k (corollary of C02.solveT_converges). The model is tied to build_model_definition by exact comparison of the body text and class attributes; the three build routes x two templates are executed and compared on the real code.",
     "design_ref": "DESIGN.md §5 M3, §6 C15",
     "note": "Trusted: Lean kernel; axioms propext/Classical.choice/Quot.sound; CPython exec; the correspondence harness. Reading enforced: the exec namespace provides BaseModel plus the names the template text itself references (typing.List/Optional/Any, np) — with BaseModel alone the typed text raises NameError at class-body evaluation, which is recorded in the evidence notes and not counted.",
     "technique": "Lean 4 proof (rfl over reflected AST skeletons, list lemmas, corollary of the C02 solver theorem) + differential correspondence check + three-way build/exec comparison on the real code"
@@ -411,6 +412,8 @@ def replay(ctx, rep, case):
     if 'prog' not in case:
         print('  (correspondence-only case; nothing to replay against the property)')
         return
+    import copy
+    ctx = copy.copy(ctx)   # the framework replays the corpus with the run's own ctx: do not switch T off for the run
     ctx.oracle_only = True
     c = {k: case[k] for k in ('prog', 'labels', 'shape', 'strip', 'strip_pick', 'data_seed')}
     run_case(ctx, rep, c, [])
